@@ -208,43 +208,119 @@ func parseFlags(s string) (script string, per map[string]map[string]string) {
 	return
 }
 
-// classify names the root-cause class of an oracle failure from decidable facts about the
-// input pair and the observed symptom.
-func classify(flags map[string]string, symptom, err, mismatch string, cmdsOfSecondPlan []string) string {
-	onlySGrp := len(cmdsOfSecondPlan) > 0
-	onlyLists := len(cmdsOfSecondPlan) > 0
-	sgClass := flags["sgchg"] == "1" && flags["sgsent"] == "1"
-	for _, c := range cmdsOfSecondPlan {
-		if !strings.HasPrefix(c, "setsgrp:") {
-			onlySGrp = false
-		} else if sgClass && flags["mixed"] == "1" {
-			continue // both classes in one vsys: the re-sent service-group belongs to F-C03a, the rest is judged below
-		}
-		k, _, _ := strings.Cut(c, ":")
+// prediction: what the Lean model of the UNCHANGED planner does on a vsys pair (driver op PREDICT).
+type prediction struct {
+	ok                  bool
+	N, Accepted         int
+	Err, Equiv, Mism    string
+	WF, SgDropRef       bool
+	Shape1, Shape2      string // three bits: only mixed lists / only changed service-groups / only these two kinds
+	Refused, Plan, Plan2 string
+}
+
+func (c *checker) predict(shared []string, a, b panos.VerifVsys) (p prediction) {
+	ans := c.drv.Ask("PREDICT\t" + encList(shared) + "\t" + encVsys(a) + "\t" + encVsys(b))
+	f := strings.Split(ans, "\t")
+	if len(f) != 4 {
+		return
+	}
+	p.ok = true
+	for _, kv := range strings.Fields(f[0]) {
+		k, v, _ := strings.Cut(kv, "=")
 		switch k {
-		case "delmem", "addmem", "editlist", "setgrp", "delgrp", "delgmem":
-		default:
-			onlyLists = false
+		case "n":
+			fmt.Sscan(v, &p.N)
+		case "accepted":
+			fmt.Sscan(v, &p.Accepted)
+		case "err":
+			if v != "-" {
+				p.Err = dec(v)
+			}
+		case "equiv":
+			p.Equiv = v
+		case "mismatch":
+			p.Mism = v
+		case "wf":
+			p.WF = v == "1"
+		case "sgdropref":
+			p.SgDropRef = v == "1"
+		case "shape1":
+			p.Shape1 = v
+		case "shape2":
+			p.Shape2 = v
 		}
 	}
-	switch {
-	case flags["nestA"] == "1" || flags["nestB"] == "1":
-		return "nested_address_groups"
-	// F-C03a: the changed members of a same-named service-group were SENT (with set, which merges)
-	case flags["sgchg"] == "1" && flags["sgsent"] == "1" &&
-		(err == "delete-referenced-service" || err == "" && (mismatch == "srv" || onlySGrp)):
-		return "service_group_same_name_members_differ"
-	case flags["mixed"] == "1" && (err == "dangling-reference" || err == "delete-referenced-group" ||
-		err == "" && (mismatch == "src" || mismatch == "dst" || onlyLists)):
-		return "list_mixing_group_with_other_members"
-	case flags["uniq"] == "1" && (err == "set-existing-rule" || symptom == "not_equivalent" || err == "move-before-itself" ||
-		strings.HasPrefix(err, "dangling") || strings.HasPrefix(err, "delete-referenced")):
-		return "generated_name_collides_with_target_name"
+	p.Refused, p.Plan, p.Plan2 = f[1], f[2], f[3]
+	return
+}
+
+// observed: one failing observation on the real requests of one vsys pair.
+type observed struct {
+	shared   []string
+	a, b     panos.VerifVsys // the pair the requests were computed for
+	cmds     []string        // the real requests
+	r        execResult      // their strict execution
+	plan2    []string        // the real second plan (nil: not computed)
+	hasPlan2 bool
+	planOnly bool              // only the plan is observed (not executed)
+	fl       map[string]string // flags of THIS pair (never carried over from another cut)
+}
+
+// judge names the class of a failure.  A failure belongs to a recorded finding only if (1) the
+// model of the unchanged planner predicts exactly this outcome on exactly this input
+// (`model_predicts`: same requests, same refusal, same difference, same second plan) and (2) it
+// has the shape of the finding, computed by the model from the input (`shape`).  Everything
+// else keeps its symptom as class and is reported.
+func (c *checker) judge(symptom string, o observed) (pred string, extra map[string]any) {
+	pr := c.predict(o.shared, o.a, o.b)
+	mp := pr.ok && pr.N == len(o.cmds) && pr.Plan == strings.Join(o.cmds, ";") && pr.Accepted == o.r.Accepted &&
+		pr.Err == o.r.Err && pr.Equiv == o.r.Equiv && pr.Mism == o.r.Mismatch
+	if o.planOnly {
+		mp = pr.ok && pr.Plan == strings.Join(o.cmds, ";")
+	} else if o.hasPlan2 {
+		mp = mp && pr.Plan2 == strings.Join(o.plan2, ";")
 	}
-	if err != "" {
-		return symptom + ":" + err
+	extra = map[string]any{"model_predicts": mp, "error": o.r.Err, "shape": "-"}
+	pred = symptom
+	if o.r.Err != "" {
+		pred = symptom + ":" + o.r.Err
 	}
-	return symptom
+	refused := ""
+	if o.r.Accepted < len(o.cmds) {
+		refused = o.cmds[o.r.Accepted]
+	}
+	bit := func(s string, i int) bool { return len(s) == 3 && s[i] == '1' }
+	switch symptom {
+	case "request_refused", "resume_refused":
+		// F-C03a: `delete service X` where only the DEVICE's version of a same-named service-group holds X
+		if o.r.Err == "delete-referenced-service" && pr.SgDropRef && refused == pr.Refused && strings.HasPrefix(refused, "delsvc:") {
+			pred, extra["shape"] = "service_group_same_name_members_differ", "delete-of-a-service-only-the-device-group-holds"
+		}
+	case "not_equivalent", "resume_not_equivalent":
+		// F-C03a: all accepted, the merged service-group makes the service content differ
+		if o.r.Mismatch == "srv" && o.fl["sgchg"] == "1" && o.fl["sgsent"] == "1" {
+			pred, extra["shape"] = "service_group_same_name_members_differ", "merged-service-group"
+		}
+	case "refused_not_converged":
+		if o.planOnly {
+			// stopped at a refusal, equivalent, but the next compare reports changes: o is the pair (state after refusal, target)
+			if bit(pr.Shape1, 1) {
+				pred, extra["shape"] = "service_group_same_name_members_differ", "changed-service-group-sent-again"
+			}
+		} else if o.r.Err == "delete-referenced-service" && pr.SgDropRef && refused == pr.Refused && o.r.Mismatch == "srv" {
+			pred, extra["shape"] = "service_group_same_name_members_differ", "delete-of-a-service-only-the-device-group-holds"
+		}
+	case "second_plan_not_empty", "resume_second_plan_not_empty":
+		switch {
+		case bit(pr.Shape2, 1):
+			pred, extra["shape"] = "service_group_same_name_members_differ", "changed-service-group-sent-again"
+		case bit(pr.Shape2, 0):
+			pred, extra["shape"] = "list_mixing_group_with_other_members", "requests-on-mixed-lists-only"
+		case bit(pr.Shape2, 2):
+			pred, extra["shape"] = "list_mixing_group_with_other_members", "requests-on-mixed-lists-and-changed-service-groups-only"
+		}
+	}
+	return
 }
 
 // propOf says which property an oracle symptom belongs to.
@@ -513,8 +589,20 @@ func (c *checker) runCase(in caseInput, deep bool) (devVsys []panos.VerifVsys, r
 		cmds := per[name]
 		fl = withSent(fl, cmds)
 		c.plain = false
+		for _, k := range []string{"mixed", "sgchg", "uniq"} {
+			if fl[k] == "1" {
+				res.Count("flag:" + k)
+			}
+		}
 		if fl["wfA"] != "1" || fl["wfB"] != "1" {
 			res.Count("oracle-skipped:not-wellformed")
+			allAccepted = false
+			continue
+		}
+		if fl["nestA"] == "1" || fl["nestB"] == "1" {
+			// F-C03n: nested address-groups are not supported by the planner (its own comment); such pairs
+			// are not judged at all — no failure in them is excused, none is reported
+			res.Count("oracle-skipped:nested-address-groups")
 			allAccepted = false
 			continue
 		}
@@ -543,43 +631,50 @@ func (c *checker) runCase(in caseInput, deep bool) (devVsys []panos.VerifVsys, r
 		} else {
 			allAccepted = false
 		}
+		obs := observed{shared: in.Shared, a: a, b: b, cmds: cmds, r: r, fl: fl}
+		report := func(symptom, what string, o observed) {
+			pred, extra := c.judge(symptom, o)
+			c.fail(symptom, pred, what, in, extra)
+		}
 		// the state the device is left in must itself be a configuration the device can hold: names are
 		// keys, address and address-group share a name space (so do service and service-group), every
 		// reference resolves, no member twice
 		if !r.WF {
-			c.fail("reached_state_not_wellformed", classify(fl, "reached_state_not_wellformed", r.Err, "", nil),
+			report("reached_state_not_wellformed",
 				fmt.Sprintf("after %d of %d requests the vsys %s is not a well-formed configuration (a name used twice / by an address and a group, a dangling reference, or a member twice)",
-					r.Accepted, len(cmds), name), in, map[string]any{"error": r.Err})
+					r.Accepted, len(cmds), name), obs)
 		} else {
 			res.Count("oracle:reached-state-wellformed")
 		}
 		if len(cmds) == 0 {
 			res.Count("oracle:empty-plan")
 			if r.Equiv != "1" {
-				c.fail("empty_plan_not_equivalent", classify(fl, "empty_plan_not_equivalent", "", r.Mismatch, nil),
-					"no change is reported although the device vsys "+name+" is not equivalent to the target", in, nil)
+				report("empty_plan_not_equivalent",
+					"no change is reported although the device vsys "+name+" is not equivalent to the target", obs)
 			}
 			continue
 		}
 		if r.Accepted != len(cmds) {
-			pred := classify(fl, "request_refused", r.Err, "", nil)
-			c.fail("request_refused", pred, fmt.Sprintf("request %d of %d for vsys %s is refused by the strict device (%s): %s",
-				r.Accepted+1, len(cmds), name, r.Err, cmds[r.Accepted]), in, map[string]any{"error": r.Err})
+			report("request_refused", fmt.Sprintf("request %d of %d for vsys %s is refused by the strict device (%s): %s",
+				r.Accepted+1, len(cmds), name, r.Err, cmds[r.Accepted]), obs)
 			// the approve stops here: the vsys stays as it is after the accepted requests
 			if r.Equiv != "1" {
-				c.fail("refused_not_converged", classify(fl, "refused_not_converged", r.Err, r.Mismatch, nil),
+				report("refused_not_converged",
 					fmt.Sprintf("approve of vsys %s stops at request %d of %d (%s: %s) and leaves a vsys that is not equivalent to the target (first difference: %s)",
-						name, r.Accepted+1, len(cmds), r.Err, cmds[r.Accepted], r.Mismatch), in, map[string]any{"error": r.Err})
+						name, r.Accepted+1, len(cmds), r.Err, cmds[r.Accepted], r.Mismatch), obs)
 			}
 			if r.Equiv == "1" {
 				// equivalent by content, but does the tool ever report 'no change' again?
 				d2, s2 := renderPair(r.Tree, b)
 				p2 := planReal(d2, s2, "", "")
 				per2, _, _ := c.tie("plan on state after refusal", caseInput{Dev: d2, Spoc: s2, Shared: in.Shared, Mode: "after-refusal"}, p2)
-				if per2 != nil && len(per2[name]) != 0 {
-					c.fail("refused_not_converged", classify(fl, "refused_not_converged", r.Err, r.Mismatch, nil),
+				if per2 == nil {
+					res.Count("oracle-skipped:no-plan-after-refusal")
+				} else if len(per2[name]) != 0 {
+					o2 := observed{shared: in.Shared, a: r.Tree, b: b, cmds: per2[name], planOnly: true, r: execResult{Err: r.Err}, fl: fl}
+					report("refused_not_converged",
 						fmt.Sprintf("approve of vsys %s stops at request %d of %d (%s: %s); the next compare still reports changes: %s",
-							name, r.Accepted+1, len(cmds), r.Err, cmds[r.Accepted], strings.Join(per2[name], ";")), in, map[string]any{"error": r.Err})
+							name, r.Accepted+1, len(cmds), r.Err, cmds[r.Accepted], strings.Join(per2[name], ";")), o2)
 				}
 			}
 			res.Count("oracle:refused")
@@ -587,27 +682,29 @@ func (c *checker) runCase(in caseInput, deep bool) (devVsys []panos.VerifVsys, r
 				continue
 			}
 		} else if r.Equiv != "1" {
-			c.fail("not_equivalent", classify(fl, "not_equivalent", "", r.Mismatch, nil),
-				"after executing all requests the vsys "+name+" is not equivalent to the target (first difference: "+r.Mismatch+")", in, nil)
+			report("not_equivalent",
+				"after executing all requests the vsys "+name+" is not equivalent to the target (first difference: "+r.Mismatch+")", obs)
 		} else {
 			res.Count("oracle:converged")
 			reached[name] = r.Tree
-			// second plan on the reached state
+			// second plan on the reached state: judged whether or not the model agrees with it
 			d2, s2 := renderPair(r.Tree, b)
 			p2 := planReal(d2, s2, "", "")
-			in2 := in
-			in2.Mode = "second-plan"
-			per2, _, ok2 := c.tie("plan on reached state", caseInput{Dev: d2, Spoc: s2, Shared: in.Shared, Mode: "second-plan"}, p2)
-			if ok2 && len(per2[name]) != 0 {
-				c.fail("second_plan_not_empty", classify(fl, "second_plan_not_empty", "", "", per2[name]),
-					"a second compare of vsys "+name+" reports changes: "+strings.Join(per2[name], ";"), in, nil)
-			} else if ok2 {
+			per2, _, _ := c.tie("plan on reached state", caseInput{Dev: d2, Spoc: s2, Shared: in.Shared, Mode: "second-plan"}, p2)
+			if per2 == nil {
+				res.Count("oracle-skipped:no-second-plan")
+			} else if len(per2[name]) != 0 {
+				o2 := obs
+				o2.plan2, o2.hasPlan2 = per2[name], true
+				report("second_plan_not_empty",
+					"a second compare of vsys "+name+" reports changes: "+strings.Join(per2[name], ";"), o2)
+			} else {
 				res.Count("oracle:second-plan-empty")
 			}
 		}
 		// resume from every cut
 		if c.prop == "C10" || deep {
-			c.resume(in, name, a, b, cmds, fl)
+			c.resume(in, name, a, b, cmds)
 		}
 	}
 	c.plain = false
@@ -669,7 +766,7 @@ func (c *checker) devExec(in caseInput, p realPlan, per map[string][]string, tre
 	res.Count("devexec:ok")
 }
 
-func (c *checker) resume(in caseInput, name string, a, b panos.VerifVsys, cmds []string, fl map[string]string) {
+func (c *checker) resume(in caseInput, name string, a, b panos.VerifVsys, cmds []string) {
 	res := c.res
 	maxCmds := c.ctx.N(25, 120)
 	if len(cmds) > maxCmds {
@@ -696,14 +793,18 @@ func (c *checker) resume(in caseInput, name string, a, b panos.VerifVsys, cmds [
 			res.Count("resume-skipped:no-plan-after-cut")
 			continue
 		}
-		fl = withSent(fl, perk[name])
-		if f := flk[name]; f != nil {
-			// the class is decided on the original pair and on the hybrid pair
-			for _, key := range []string{"nestA", "nestB", "sgchg", "uniq", "mixed"} {
-				if f[key] == "1" {
-					fl = mergeFlag(fl, key)
-				}
-			}
+		// flags of THIS cut only: those of the pair (state after the cut, target)
+		flc := withSent(flk[name], perk[name])
+		if flc["nestA"] == "1" || flc["nestB"] == "1" {
+			res.Count("resume-skipped:nested-address-groups")
+			continue
+		}
+		if flc["wfA"] != "1" || flc["wfB"] != "1" {
+			// the state after an accepted prefix must be a configuration the device can hold
+			c.fail("resume_state_not_wellformed", "resume_state_not_wellformed",
+				fmt.Sprintf("vsys %s, cut after %d of %d requests: the state after the cut is not a well-formed configuration", name, k, len(cmds)),
+				in, map[string]any{"error": "", "model_predicts": false, "shape": "-"})
+			continue
 		}
 		rk, ok := c.exec(in.Shared, r.Tree, perk[name], &b)
 		if !ok {
@@ -711,27 +812,33 @@ func (c *checker) resume(in caseInput, name string, a, b panos.VerifVsys, cmds [
 			continue
 		}
 		what := fmt.Sprintf("vsys %s, cut after %d of %d requests", name, k, len(cmds))
-		if !r.WF || !rk.WF {
-			c.fail("resume_state_not_wellformed", classify(fl, "resume_state_not_wellformed", rk.Err, "", nil),
-				what+": the state after the cut or after the second run is not a well-formed configuration", in, map[string]any{"error": rk.Err})
+		obs := observed{shared: in.Shared, a: r.Tree, b: b, cmds: perk[name], r: rk, fl: flc}
+		report := func(symptom, what string, o observed) {
+			pred, extra := c.judge(symptom, o)
+			extra["cut"] = k
+			c.fail(symptom, pred, what, in, extra)
+		}
+		if !rk.WF {
+			report("resume_state_not_wellformed", what+": the state after the second run is not a well-formed configuration", obs)
 		}
 		if rk.Accepted != len(perk[name]) {
-			c.fail("resume_refused", classify(fl, "resume_refused", rk.Err, "", nil),
-				what+": request "+fmt.Sprint(rk.Accepted+1)+" of the second run is refused ("+rk.Err+")", in, map[string]any{"error": rk.Err})
+			report("resume_refused", what+": request "+fmt.Sprint(rk.Accepted+1)+" of the second run is refused ("+rk.Err+"): "+perk[name][rk.Accepted], obs)
 			continue
 		}
 		if rk.Equiv != "1" {
-			c.fail("resume_not_equivalent", classify(fl, "resume_not_equivalent", "", rk.Mismatch, nil),
-				what+": the second run does not reach a vsys equivalent to the target ("+rk.Mismatch+")", in, nil)
+			report("resume_not_equivalent", what+": the second run does not reach a vsys equivalent to the target ("+rk.Mismatch+")", obs)
 			continue
 		}
 		d3, s3 := renderPair(rk.Tree, b)
 		p3 := planReal(d3, s3, "", "")
-		per3, _, ok3 := c.tie("plan after resume", caseInput{Dev: d3, Spoc: s3, Shared: in.Shared, Mode: "resume-2"}, p3)
-		if ok3 && len(per3[name]) != 0 {
-			c.fail("resume_second_plan_not_empty", classify(fl, "resume_second_plan_not_empty", "", "", per3[name]),
-				what+": a further compare reports changes", in, nil)
-		} else if ok3 {
+		per3, _, _ := c.tie("plan after resume", caseInput{Dev: d3, Spoc: s3, Shared: in.Shared, Mode: "resume-2"}, p3)
+		if per3 == nil {
+			res.Count("resume-skipped:no-plan-after-second-run")
+		} else if len(per3[name]) != 0 {
+			o3 := obs
+			o3.plan2, o3.hasPlan2 = per3[name], true
+			report("resume_second_plan_not_empty", what+": a further compare reports changes: "+strings.Join(per3[name], ";"), o3)
+		} else {
 			res.Count("resume:converged")
 		}
 	}
